@@ -30,6 +30,8 @@ import (
 	"encoding/binary"
 	"fmt"
 	"os"
+	"os/exec"
+	"regexp"
 	"runtime"
 	"sort"
 	"strconv"
@@ -39,6 +41,7 @@ import (
 	"syscall"
 	"testing"
 	"time"
+	"unsafe"
 
 	"github.com/sanonone/kektordb/internal/zzverif/vkit"
 )
@@ -221,8 +224,10 @@ func (a *c18Arena) write(id uint32) {
 	}
 	a.gen++
 	r := a.shadow[id]
-	if !r.written {
+	if !r.written && !bytes.Equal(b, c18Zero) {
 		// a reused slot may hold the previous owner's bytes: the first write defines all of it
+		// (a slot that was never used reads as zeros already; not writing zeros over it keeps
+		// the 64 MiB chunk files sparse)
 		copy(b, c18Zero)
 	}
 	c18PutStamp(b, id, a.gen)
@@ -233,6 +238,24 @@ func (a *c18Arena) free(id uint32) {
 	a.va.FreeSlot(id)
 	delete(a.shadow, id)
 	a.freed = append(a.freed, id)
+}
+
+// getDead reads an id that is not allocated. The product answers with an error; what the
+// property forbids is handing out bytes that belong to a live vector ("nor expose another
+// vector's bytes after slot reuse").
+func (a *c18Arena) getDead(id uint32) {
+	b, err := a.va.GetBytes(id)
+	if err != nil {
+		a.ctx.Count("arena.get_dead_refused", 1)
+		return
+	}
+	a.ctx.Count("arena.get_dead_returned_bytes", 1)
+	if len(b) >= 16 && binary.LittleEndian.Uint32(b) == 0xC18C18C1 {
+		oid, ogen := binary.LittleEndian.Uint32(b[4:]), binary.LittleEndian.Uint32(b[8:])
+		if r, live := a.shadow[oid]; live && r.written && r.gen == ogen {
+			a.cs.Fail("GetBytes(%d) of an id that is not allocated returned the bytes of the live vector %d (%s)", id, oid, c18Describe(b))
+		}
+	}
 }
 
 // verify is run after every operation. Stamps (head, middle, tail) of every live id are
@@ -268,9 +291,29 @@ func (a *c18Arena) verify(nfull int, after string) {
 			a.cs.Fail("after %s: live id %d is beyond the slot table (len %d)", after, id, len(st.SlotTable))
 		}
 	}
+	// Free-list entries are the slots the next AllocSlot calls hand out, fresh slots start at
+	// NextPhysSlot: an entry that is allocated, listed twice, or not below NextPhysSlot (and an
+	// allocated slot not below NextPhysSlot) is a slot that two live vectors will share after
+	// the next allocations; the "unallocated" marker in the list would be handed out as a slot.
+	inFree := map[uint32]bool{}
 	for _, fs := range st.FreeSlots {
 		if o, used := owner[fs]; used {
 			a.cs.Fail("after %s: physical slot %d is in the free list and allocated to id %d", after, fs, o)
+		}
+		if fs == UnallocatedSlot {
+			a.cs.Fail("after %s: the free list contains the unallocated marker %#x", after, fs)
+		}
+		if inFree[fs] {
+			a.cs.Fail("after %s: physical slot %d is in the free list twice", after, fs)
+		}
+		inFree[fs] = true
+		if fs >= st.NextPhysSlot {
+			a.cs.Fail("after %s: free slot %d is not below the next fresh slot %d", after, fs, st.NextPhysSlot)
+		}
+	}
+	for slot, o := range owner {
+		if slot >= st.NextPhysSlot {
+			a.cs.Fail("after %s: id %d holds slot %d, not below the next fresh slot %d", after, o, slot, st.NextPhysSlot)
 		}
 	}
 	for id, r := range a.shadow {
@@ -472,7 +515,31 @@ func TestVerifC18Arena(t *testing.T) {
 				case p < 96:
 					do("load_fresh", "GetState; NewVectorArena(same dir); LoadState; Close(old)", true, func() { a.reopen(false) })
 				default:
-					do("get_state", "GetState (read-only)", full, func() { _ = a.va.GetState() })
+					// an id that is not live: freed before, never allocated (inside or beyond the slot
+					// table), or far out of range
+					var dead uint32
+					switch r.Intn(4) {
+					case 0:
+						dead = uint32(r.Intn(int(maxID) + 60))
+					case 1:
+						dead = maxID + uint32(r.Intn(100))
+					case 2:
+						dead = uint32(1<<30) + uint32(r.Intn(1000))
+					default:
+						if len(a.freed) > 0 {
+							dead = vkit.Pick(r, a.freed)
+						}
+					}
+					_, isLive := a.shadow[dead]
+					switch k := r.Intn(3); {
+					case k == 0 || isLive:
+						do("get_state", "GetState (read-only)", full, func() { _ = a.va.GetState() })
+					case k == 1:
+						// must leave every live vector and the allocator state as they are (verify)
+						do("free_dead", fmt.Sprintf("FreeSlot(%d) of an id that is not allocated", dead), full, func() { a.va.FreeSlot(dead) })
+					default:
+						do("get_dead", fmt.Sprintf("GetBytes(%d) of an id that is not allocated", dead), full, func() { a.getDead(dead) })
+					}
 				}
 			}
 			a.verify(-1, "the last operation (final full comparison)")
@@ -490,7 +557,226 @@ func TestVerifC18Arena(t *testing.T) {
 			}
 			ctx.Sample("arena_history", 1, map[string]any{"ops": cs.Ops()[:min(len(cs.Ops()), 20)], "relocations": a.reloc, "slot_reuses": a.reuse})
 		})
+		ctx.Group("arena_geometry", ctx.N(8, 240), func(cs *vkit.Case) { c18Geometry(ctx, cs) })
 	})
+}
+
+// ---------------------------------------------------------------------------------------
+// Other geometries. The histories above use one vector size (256 KiB: 255 slots per chunk). The
+// slot -> (chunk, offset) arithmetic exists in several copies (GetBytes, moveBatch source and
+// target, identifyVectorsToMove, tryDropEmptyChunks, getChunkStats); with the vector sizes real
+// indexes have (dim 3 float32 = 12 bytes: 5 592 400 slots per chunk; dim 33 float16 = 66; dim 257
+// int8 = 257; dim 768 float32 = 3072) a slip that is invisible at 255 slots per chunk would make
+// neighbouring slots overlap or the last slots of a chunk run past its end. White-box set-up:
+// LoadState places the next fresh slot a few slots below a chunk boundary and puts a few low
+// slots on the free list, so that a dozen allocations cover both ends of the slot range and
+// straddle the boundary. Oracle (same clauses as above): GetBytes(id) has the vector size and
+// holds the bytes written last for every live id, after every step; the byte ranges of live ids
+// are pairwise disjoint (a slot is never shared, not even in part); UpdateNodePointer delivers
+// the bytes of the id.
+// ---------------------------------------------------------------------------------------
+
+func c18GeomFill(b []byte, id, gen uint32) {
+	for j := range b {
+		b[j] = byte(uint32(j)*131 + id*31 + gen*17 + uint32(j>>8))
+	}
+}
+
+type c18GeomUpdater struct {
+	gen   map[uint32]uint32
+	moves int
+	bad   string
+}
+
+func (u *c18GeomUpdater) UpdateNodePointer(id uint32, b []byte) {
+	u.moves++
+	g, ok := u.gen[id]
+	if !ok {
+		if u.bad == "" {
+			u.bad = fmt.Sprintf("UpdateNodePointer(%d) for an id that is not allocated", id)
+		}
+		return
+	}
+	want := make([]byte, len(b))
+	c18GeomFill(want, id, g)
+	if !bytes.Equal(b, want) && u.bad == "" {
+		u.bad = fmt.Sprintf("UpdateNodePointer(%d) delivered %d bytes that are not the content of id %d", id, len(b), id)
+	}
+}
+
+func c18Geometry(ctx *vkit.Ctx, cs *vkit.Case) {
+	r := cs.R
+	type geo struct {
+		vs, dim int
+		prec    uint8
+	}
+	g := vkit.Pick(r, []geo{{12, 3, PrecFloat32}, {66, 33, PrecFloat16}, {257, 257, PrecInt8}, {3072, 768, PrecFloat32}, {3072, 768, PrecFloat32}, {4, 1, PrecFloat32}, {1 << 20, 1 << 18, PrecFloat32}})
+	dir := cs.SubDir("arena")
+	up := &c18GeomUpdater{gen: map[uint32]uint32{}}
+	var va *VectorArena
+	var ac *AsyncCompactor
+	open := func() {
+		v, err := NewVectorArena(dir, g.vs, g.dim, g.prec)
+		if err != nil {
+			cs.Fail("NewVectorArena(vectorSize %d): %v", g.vs, err)
+		}
+		va = v
+		ac = NewAsyncCompactor(va, ArenaCompactionConfig{Enabled: true, Interval: time.Hour, Threshold: 0.01, BatchSize: 100, BatchDelay: time.Nanosecond})
+		ac.SetNodeUpdater(up)
+	}
+	open()
+	defer func() { va.Close() }()
+	vpc := va.vecsPerChk
+	k := r.Range(1, 2)
+	start := uint32(k*vpc - r.Range(1, 5))
+	// free list: the first slots of the chunk whose last slots are about to be used (always: the
+	// ids stored there, once freed again, leave the gap the compactor moves the chunk's last
+	// vectors into), and some slots of the chunk before it
+	base := uint32((k - 1) * vpc)
+	var free []uint32
+	if k == 2 {
+		for _, f := range []uint32{0, uint32(vpc) / 2, uint32(vpc) - 1} {
+			if r.Chance(0.5) {
+				free = append(free, f)
+			}
+		}
+	}
+	free = append(free, base+1, base) // handed out last-in first-out: base, then base+1
+	cs.Op("vector size %d (%d slots per chunk); LoadState(next fresh slot %d = %d below the end of chunk %d, free list %v)", g.vs, vpc, start, uint32(k*vpc)-start, k-1, free)
+	va.LoadState(ArenaState{SlotTable: []uint32{}, FreeSlots: append([]uint32(nil), free...), NextPhysSlot: start})
+	gen := uint32(0)
+	verify := func(after string) {
+		type span struct {
+			lo, hi uintptr
+			id     uint32
+		}
+		var spans []span
+		want := make([]byte, g.vs)
+		ids := make([]uint32, 0, len(up.gen))
+		for id := range up.gen {
+			ids = append(ids, id)
+		}
+		sort.Slice(ids, func(i, j int) bool { return ids[i] < ids[j] })
+		for _, id := range ids {
+			b, err := va.GetBytes(id)
+			if err != nil {
+				cs.Fail("after %s: GetBytes(%d) of a live id: %v", after, id, err)
+			}
+			if len(b) != g.vs {
+				cs.Fail("after %s: GetBytes(%d) returned %d bytes, vector size is %d", after, id, len(b), g.vs)
+			}
+			c18GeomFill(want, id, up.gen[id])
+			if !bytes.Equal(b, want) {
+				j := 0
+				for j < len(b) && b[j] == want[j] {
+					j++
+				}
+				cs.Fail("after %s: GetBytes(%d) differs from the content written last from byte %d of %d on", after, id, j, g.vs)
+			}
+			lo := uintptr(unsafe.Pointer(&b[0]))
+			spans = append(spans, span{lo, lo + uintptr(len(b)), id})
+		}
+		sort.Slice(spans, func(i, j int) bool { return spans[i].lo < spans[j].lo })
+		for i := 1; i < len(spans); i++ {
+			if spans[i].lo < spans[i-1].hi {
+				cs.Fail("after %s: the bytes of id %d and id %d overlap (%d bytes shared)", after, spans[i-1].id, spans[i].id, spans[i-1].hi-spans[i].lo)
+			}
+		}
+		ctx.Count("geometry.getbytes_verified", int64(len(ids)))
+	}
+	write := func(id uint32) {
+		b, err := va.GetBytes(id)
+		if err != nil {
+			cs.Fail("GetBytes(%d) of an allocated id: %v", id, err)
+		}
+		gen++
+		c18GeomFill(b, id, gen)
+		up.gen[id] = gen
+	}
+	next := uint32(0)
+	nops := r.Range(12, 30)
+	relocs, reopened := 0, false
+	for i := 0; i < nops; i++ {
+		p := r.Intn(100)
+		switch {
+		case p < 45 || len(up.gen) < 3:
+			id := next
+			next++
+			cs.Op("AllocSlot(%d) + write", id)
+			if _, err := va.AllocSlot(id); err != nil {
+				cs.Fail("AllocSlot(%d): %v", id, err)
+			}
+			write(id)
+			verify(fmt.Sprintf("AllocSlot(%d) + write", id))
+		case p < 60:
+			var ids []uint32
+			for id := range up.gen {
+				ids = append(ids, id)
+			}
+			sort.Slice(ids, func(i, j int) bool { return ids[i] < ids[j] })
+			id := vkit.Pick(r, ids)
+			if r.Chance(0.6) { // the id on the lowest slot of that chunk: leaves a gap below its last vectors, so that a cycle has something to move
+				st := va.GetState()
+				best := uint32(UnallocatedSlot)
+				for _, x := range ids {
+					if sl := st.SlotTable[x]; sl >= base && sl < best {
+						best, id = sl, x
+					}
+				}
+			}
+			cs.Op("FreeSlot(%d)", id)
+			va.FreeSlot(id)
+			delete(up.gen, id)
+			verify(fmt.Sprintf("FreeSlot(%d)", id))
+		case p < 80:
+			if vpc > 1100000 {
+				// the compactor scans the slot range of a chunk once per vector: with millions of
+				// slots per chunk (vector sizes 4 and 12) a cycle costs seconds; those geometries are
+				// covered for allocation, read/write and reopen only
+				ctx.Count("geometry.cycles_skipped_slots_per_chunk_above_1.1M", 1)
+				continue
+			}
+			if len(up.gen) > 3 && r.Chance(0.6) { // first open a gap at the low end of the chunk (see above)
+				st := va.GetState()
+				best, bid := uint32(UnallocatedSlot), uint32(0)
+				for x := range up.gen {
+					if sl := st.SlotTable[x]; sl >= base && sl < best {
+						best, bid = sl, x
+					}
+				}
+				if best != UnallocatedSlot {
+					cs.Op("FreeSlot(%d) (lowest slot of chunk %d)", bid, k-1)
+					va.FreeSlot(bid)
+					delete(up.gen, bid)
+				}
+			}
+			cs.Op("RunCycle()")
+			up.moves, up.bad = 0, ""
+			ac.RunCycle()
+			if up.bad != "" {
+				cs.Fail("during RunCycle: %s", up.bad)
+			}
+			relocs += up.moves
+			ctx.Count("geometry.relocations", int64(up.moves))
+			verify("RunCycle()")
+		default:
+			cs.Op("GetState; Close; NewVectorArena(same dir); LoadState")
+			st := va.GetState()
+			if err := va.Close(); err != nil {
+				cs.Fail("Close: %v", err)
+			}
+			open()
+			va.LoadState(st)
+			reopened = true
+			verify("reopen")
+		}
+		ctx.Touch()
+	}
+	ctx.Eval(1)
+	ctx.Count("geometry.cases", 1)
+	if (relocs > 0 || vpc > 1100000) && reopened {
+		ctx.Distinct(fmt.Sprintf("geometry/%d/%d", g.vs, cs.Idx))
+	}
 }
 
 // ---------------------------------------------------------------------------------------
@@ -823,14 +1109,258 @@ func c18Concurrent(ctx *vkit.Ctx, cs *vkit.Case, withWriters bool) {
 	}
 }
 
+// c18Growth: chunks are created while compaction cycles and other allocations are in flight
+// (the schedule of inserts that cross chunk boundaries during compactor ticks; quantifier:
+// "readers running concurrently with the compactor"). Vector size 40 MiB => one slot per chunk,
+// so every fresh slot that is read or written the first time creates a chunk (GetBytes slow path)
+// and a freed trailing slot lets the compactor drop its chunk again; nothing is ever relocated
+// (the compactor only moves inside a chunk), so a reader may compare every observation. Only the
+// first 64 bytes of a slot are touched: the 64 MiB chunk files stay sparse.
+// Oracle: GetBytes(id) of a live id whose content was written returns its stamp, for the grower
+// right after each write and for the readers at any time; at the end every kept id still reads
+// its stamp and the slot table is injective. A call that never returns stops all progress: the
+// harness watchdog reports the child with its goroutine dump.
+func c18Growth(ctx *vkit.Ctx, cs *vkit.Case) {
+	r := cs.R
+	const vs = 40 << 20
+	va, err := NewVectorArena(cs.SubDir("arena"), vs, vs/4, PrecFloat32)
+	if err != nil {
+		cs.Fail("NewVectorArena: %v", err)
+	}
+	defer va.Close()
+	if va.vecsPerChk != 1 {
+		cs.Fail("harness: expected one 40 MiB slot per chunk, arena says %d", va.vecsPerChk)
+	}
+	ac := NewAsyncCompactor(va, ArenaCompactionConfig{Enabled: true, Interval: time.Hour, Threshold: 0.01, BatchSize: 100, BatchDelay: time.Nanosecond})
+	up := &c18GeomUpdater{gen: map[uint32]uint32{}}
+	ac.SetNodeUpdater(up)
+	n := r.Range(40, 70) // ids the grower stores: as many chunk creations, plus re-creations after drops
+	stamp := func(b []byte, id uint32) {
+		for k := 0; k < c18Stamp; k += 16 {
+			binary.LittleEndian.PutUint32(b[k:], 0xC18C18C1)
+			binary.LittleEndian.PutUint32(b[k+4:], id)
+			binary.LittleEndian.PutUint32(b[k+8:], id+1)
+			binary.LittleEndian.PutUint32(b[k+12:], id*2654435761^0x5bd1e995)
+		}
+	}
+	check := func(b []byte, id uint32) string {
+		if len(b) != vs {
+			return fmt.Sprintf("GetBytes(%d) returned %d bytes, want %d", id, len(b), vs)
+		}
+		want := make([]byte, c18Stamp)
+		stamp(want, id)
+		if !bytes.Equal(b[:c18Stamp], want) {
+			return fmt.Sprintf("GetBytes(%d) holds %s, want stamp(id=%d,gen=%d)", id, c18Describe(b[:c18Stamp]), id, id+1)
+		}
+		return ""
+	}
+	var mu sync.Mutex
+	var failure string
+	fail := func(s string) {
+		mu.Lock()
+		if failure == "" {
+			failure = s
+		}
+		mu.Unlock()
+	}
+	failed := func() bool { mu.Lock(); defer mu.Unlock(); return failure != "" }
+	var written atomic.Int64 // ids 0..written-1 are stored; those with id%4 != 3 are kept for good
+	var growerDone atomic.Bool
+	var verified atomic.Int64
+	seeds := []uint64{r.Uint64(), r.Uint64(), r.Uint64(), r.Uint64(), r.Uint64(), r.Uint64(), r.Uint64()}
+	cs.Op("concurrent: grower stores ids 0..%d (one chunk each; every 4th is freed again a little later), 2 churners AllocSlot/FreeSlot ids of their own, 4 readers, RunCycle in a loop", n-1)
+	var wg sync.WaitGroup
+	stop := make(chan struct{})
+	wg.Add(1)
+	go func() { // grower
+		defer wg.Done()
+		defer growerDone.Store(true)
+		rr := vkit.NewRand(seeds[0], 1)
+		var toFree []uint32
+		for id := uint32(0); id < uint32(n) && !failed(); id++ {
+			if _, err := va.AllocSlot(id); err != nil {
+				fail(fmt.Sprintf("grower: AllocSlot(%d): %v", id, err))
+				return
+			}
+			b, err := va.GetBytes(id)
+			if err != nil {
+				fail(fmt.Sprintf("grower: GetBytes(%d) of an id just allocated: %v", id, err))
+				return
+			}
+			if len(b) != vs {
+				fail(fmt.Sprintf("grower: GetBytes(%d) returned %d bytes, want %d", id, len(b), vs))
+				return
+			}
+			stamp(b, id)
+			b2, err := va.GetBytes(id)
+			if err != nil {
+				fail(fmt.Sprintf("grower: GetBytes(%d) after the write: %v", id, err))
+				return
+			}
+			if msg := check(b2, id); msg != "" {
+				fail("grower, right after the write: " + msg)
+				return
+			}
+			written.Store(int64(id) + 1)
+			if id%4 == 3 {
+				toFree = append(toFree, id)
+			}
+			if len(toFree) > 0 && rr.Chance(0.5) {
+				va.FreeSlot(toFree[0]) // a trailing chunk may now be empty: the compactor drops it
+				toFree = toFree[1:]
+			}
+			ctx.Touch()
+			if rr.Chance(0.3) {
+				runtime.Gosched()
+			}
+		}
+	}()
+	var churnOps atomic.Int64
+	for w := 0; w < 2; w++ {
+		wg.Add(1)
+		go func(w int) { // churners: writers queued on the slot lock
+			defer wg.Done()
+			rr := vkit.NewRand(seeds[1+w], uint64(10+w))
+			base := uint32(200 + 40*w)
+			var mine []uint32
+			for !growerDone.Load() && !failed() {
+				if len(mine) < 6 && (len(mine) == 0 || rr.Chance(0.5)) {
+					id := base + uint32(rr.Intn(40))
+					dup := false
+					for _, m := range mine {
+						dup = dup || m == id
+					}
+					if dup {
+						continue
+					}
+					if _, err := va.AllocSlot(id); err != nil {
+						fail(fmt.Sprintf("churner %d: AllocSlot(%d): %v", w, id, err))
+						return
+					}
+					mine = append(mine, id)
+				} else {
+					k := rr.Intn(len(mine))
+					va.FreeSlot(mine[k])
+					mine = append(mine[:k], mine[k+1:]...)
+				}
+				churnOps.Add(1)
+				if rr.Chance(0.2) {
+					runtime.Gosched()
+				}
+			}
+		}(w)
+	}
+	for g := 0; g < 4; g++ {
+		wg.Add(1)
+		go func(g int) { // readers of the ids that are kept for good
+			defer wg.Done()
+			rr := vkit.NewRand(seeds[3+g], uint64(20+g))
+			for {
+				select {
+				case <-stop:
+					return
+				default:
+				}
+				w := written.Load()
+				if w == 0 {
+					runtime.Gosched()
+					continue
+				}
+				id := uint32(rr.Intn(int(w)))
+				if id%4 == 3 {
+					continue
+				}
+				b, err := va.GetBytes(id)
+				if err != nil {
+					fail(fmt.Sprintf("reader %d: GetBytes(%d) of a live id: %v", g, id, err))
+					return
+				}
+				if msg := check(b, id); msg != "" {
+					fail(fmt.Sprintf("reader %d: %s", g, msg))
+					return
+				}
+				verified.Add(1)
+				runtime.Gosched()
+			}
+		}(g)
+	}
+	cycles := 0
+	for !growerDone.Load() && !failed() {
+		ac.RunCycle()
+		cycles++
+		ctx.Touch()
+	}
+	for i := 0; i < 3; i++ { // a few cycles on the quiescent arena (drops what is droppable)
+		ac.RunCycle()
+		cycles++
+	}
+	close(stop)
+	wg.Wait()
+	ctx.Count("growth.cycles", int64(cycles))
+	ctx.Count("growth.churn_ops", churnOps.Load())
+	ctx.Count("growth.reads_verified", verified.Load())
+	ctx.Count("growth.relocations", int64(up.moves))
+	if failure != "" {
+		cs.Fail("%s", failure)
+	}
+	st := va.GetState()
+	owner := map[uint32]uint32{}
+	for id, slot := range st.SlotTable {
+		if slot == UnallocatedSlot {
+			continue
+		}
+		if o, dup := owner[slot]; dup {
+			cs.Fail("after the concurrent phase: physical slot %d is assigned to both id %d and id %d", slot, o, id)
+		}
+		owner[slot] = uint32(id)
+	}
+	for id := uint32(0); id < uint32(n); id++ {
+		if id%4 == 3 {
+			continue
+		}
+		b, err := va.GetBytes(id)
+		if err != nil {
+			cs.Fail("after the concurrent phase: GetBytes(%d): %v", id, err)
+		}
+		if msg := check(b, id); msg != "" {
+			cs.Fail("after the concurrent phase: %s", msg)
+		}
+	}
+	va.mu.RLock()
+	created := len(va.chunks) + len(va.droppedChunks)
+	dropped := len(va.droppedChunks)
+	va.mu.RUnlock()
+	ctx.Count("growth.chunks_created", int64(created))
+	ctx.Count("growth.chunks_dropped", int64(dropped))
+	ctx.Eval(1)
+	if created > 8 && verified.Load() > 0 && cycles > 3 {
+		ctx.Distinct(fmt.Sprintf("growth/%d", cs.Idx))
+	}
+}
+
 func TestVerifC18ArenaConcurrent(t *testing.T) {
 	vkit.Run(t, "C18", func(ctx *vkit.Ctx) {
 		n := ctx.N(4, 48)
 		if c18Race {
 			n = ctx.N(4, 24)
 		}
+		c18LockOrderProbe(ctx)
 		ctx.Group("conc_readers", n, func(cs *vkit.Case) { c18Concurrent(ctx, cs, false) })
 		ctx.Group("conc_readers_writers", n, func(cs *vkit.Case) { c18Concurrent(ctx, cs, true) })
+		// Generator guard for the recorded finding D-C18-4 (getChunkStats takes mu before slotMu:
+		// three-party deadlock with a chunk-creating GetBytes and a queued AllocSlot/FreeSlot):
+		// while it is listed as "known" no chunk is created while cycles run (in the two groups
+		// above all chunks exist after the setup and the writers only reuse holes); the
+		// chunk-growth group runs once the finding is marked fixed.
+		// Same for D-C18-5 in the race build (RunCycle reads the chunk list without the chunk
+		// lock while a chunk is appended: the race detector reports it as soon as a chunk is
+		// created while cycles run).
+		c18RaceProbe(ctx)
+		if ctx.IsKnown("D-C18-4") || (c18Race && ctx.IsKnown("D-C18-5")) {
+			ctx.Count("conc.growth_group_skipped_guard_D-C18-4_D-C18-5", 1)
+		} else {
+			ctx.Group("conc_chunk_growth", ctx.N(3, 16), func(cs *vkit.Case) { c18Growth(ctx, cs) })
+		}
 	})
 }
 
@@ -966,5 +1496,199 @@ func c18ArenaProbes(ctx *vkit.Ctx) {
 			}
 		}
 		return strings.Join(out, " || ")
+	})
+}
+
+// ---------------------------------------------------------------------------------------
+// D-C18-4: lock order. The arena's documented order is slotMu -> mu (GetBytes, moveBatch,
+// tryDropEmptyChunks); AsyncCompactor.getChunkStats (every RunCycle via analyzeFragmentation,
+// and VectorArena.GetFragmentationStats) takes mu.RLock and then slotMu.RLock. Three product
+// calls, placed by the probe where the scheduler can place them:
+//   T3 GetBytes(id) of the first id of a chunk that does not exist yet: holds slotMu.RLock, needs mu.Lock;
+//   T2 AllocSlot(other id): queued on slotMu.Lock behind T3's read lock (a queued writer blocks new readers);
+//   T1 getChunkStats(): holds mu.RLock, needs slotMu.RLock — blocked by the queued T2; T3 waits for T1.
+// Placement: the probe holds mu itself while the three calls queue up (each is seen parked on
+// its lock in the goroutine dump before the next one starts), then releases it. Verdict: all
+// three calls returned, or the dump shows the three of them parked on the cycle described above
+// (goroutine wait states, not elapsed time). The deadlocked arena is left behind un-closed
+// (Close needs mu).
+// ---------------------------------------------------------------------------------------
+
+var c18WaitRe = map[string]*regexp.Regexp{
+	"RLock": regexp.MustCompile(`^goroutine \d+ \[sync\.RWMutex\.RLock[,\]]`),
+	"Lock":  regexp.MustCompile(`^goroutine \d+ \[sync\.RWMutex\.Lock[,\]]`),
+}
+
+// c18Parked reports whether a goroutine with fn on its stack is blocked in RWMutex.<kind>.
+func c18Parked(fn, kind string) bool {
+	buf := make([]byte, 4<<20)
+	buf = buf[:runtime.Stack(buf, true)]
+	for _, g := range strings.Split(string(buf), "\n\n") {
+		if strings.Contains(g, fn) && c18WaitRe[kind].MatchString(g) {
+			return true
+		}
+	}
+	return false
+}
+
+func c18LockOrderProbe(ctx *vkit.Ctx) {
+	ctx.Probe("D-C18-4", func(cs *vkit.Case) string {
+		va, err := NewVectorArena(cs.SubDir("arena"), c18VecSize, c18VecSize/4, PrecFloat32)
+		if err != nil {
+			cs.Fail("NewVectorArena: %v", err)
+		}
+		ac := NewAsyncCompactor(va, ArenaCompactionConfig{Enabled: true, Interval: time.Hour, Threshold: 0.01, BatchSize: 100, BatchDelay: time.Nanosecond})
+		cs.Op("AllocSlot(0) on an arena without chunks")
+		if _, err := va.AllocSlot(0); err != nil {
+			cs.Fail("AllocSlot(0): %v", err)
+		}
+		until := func(what string, f func() bool) bool {
+			for i := 0; i < 400000; i++ {
+				if f() {
+					return true
+				}
+				ctx.Touch()
+				runtime.Gosched()
+				time.Sleep(20 * time.Microsecond)
+			}
+			cs.Op("probe could not place: %s", what)
+			return false
+		}
+		var d1, d2, d3 atomic.Bool
+		va.mu.Lock()
+		cs.Op("T3: GetBytes(0) (chunk 0 does not exist: it will be created)")
+		go func() { va.GetBytes(0); d3.Store(true) }()
+		ok := until("GetBytes parked on mu (holding slotMu.RLock)", func() bool { return c18Parked("(*VectorArena).GetBytes", "RLock") })
+		if ok {
+			cs.Op("T2: AllocSlot(1)")
+			go func() { va.AllocSlot(1); d2.Store(true) }()
+			ok = until("AllocSlot parked on slotMu.Lock", func() bool { return c18Parked("(*VectorArena).AllocSlot", "Lock") })
+		}
+		if ok {
+			cs.Op("T1: getChunkStats() (as RunCycle -> analyzeFragmentation calls it)")
+			go func() { ac.getChunkStats(); d1.Store(true) }()
+			ok = until("getChunkStats parked on a read lock", func() bool { return c18Parked("(*AsyncCompactor).getChunkStats", "RLock") })
+		}
+		va.mu.Unlock()
+		if !ok {
+			ctx.Count("conc.lock_order_probe_not_placed", 1)
+			return "" // nothing decided (the schedule could not be set up)
+		}
+		cycle := false
+		until("the three calls return, or are parked on each other", func() bool {
+			if d1.Load() && d2.Load() && d3.Load() {
+				return true
+			}
+			cycle = c18Parked("(*VectorArena).GetBytes", "Lock") && c18Parked("(*VectorArena).AllocSlot", "Lock") && c18Parked("(*AsyncCompactor).getChunkStats", "RLock")
+			return cycle
+		})
+		if d1.Load() && d2.Load() && d3.Load() {
+			va.Close()
+			return ""
+		}
+		if !cycle {
+			ctx.Count("conc.lock_order_probe_undecided", 1)
+			return ""
+		}
+		return "deadlock: GetBytes(0) creating chunk 0 holds slotMu.RLock and waits for mu.Lock (arena.go GetBytes slow path); AllocSlot(1) waits for slotMu.Lock; getChunkStats holds mu.RLock and waits for slotMu.RLock behind the queued writer (compactor.go getChunkStats takes mu before slotMu, against the documented order slotMu -> mu); none of the three calls can return"
+	})
+}
+
+// ---------------------------------------------------------------------------------------
+// D-C18-5: data race on the chunk list. RunCycle ends with a log line that reads
+// len(arena.chunks) without the chunk lock (compactor.go, "Compaction cycle completed"), while
+// GetBytes -> addChunk appends to that slice under mu.Lock when an insert crosses a chunk
+// boundary. The race detector writes its report out of band (the driver turns every report of
+// the run into a violation), so the fixed scenario runs in a child process of this test binary
+// with a report file of its own; the probe reads that file. Race build only.
+// ---------------------------------------------------------------------------------------
+
+// TestVerifC18RaceChild is the scenario (run only as the child of the probe below).
+func TestVerifC18RaceChild(t *testing.T) {
+	dir := os.Getenv("C18_RACE_CHILD_DIR")
+	if dir == "" {
+		t.Skip("child of the D-C18-5 probe")
+	}
+	const vs = 40 << 20 // one slot per chunk
+	va, err := NewVectorArena(dir, vs, vs/4, PrecFloat32)
+	if err != nil {
+		t.Fatal(err)
+	}
+	defer va.Close()
+	ac := NewAsyncCompactor(va, ArenaCompactionConfig{Enabled: true, Interval: time.Hour, Threshold: 0.01, BatchSize: 100, BatchDelay: time.Nanosecond})
+	ac.SetNodeUpdater(&c18GeomUpdater{gen: map[uint32]uint32{}})
+	// physical slot 0 (= chunk 0) is never handed out: one chunk stays unused, the fragmentation
+	// ratio stays above the threshold (1/80 > 0.01) and every cycle runs to its end
+	va.LoadState(ArenaState{SlotTable: []uint32{}, FreeSlots: []uint32{}, NextPhysSlot: 1})
+	for id := uint32(0); id < 2; id++ {
+		va.AllocSlot(id)
+		if _, err := va.GetBytes(id); err != nil {
+			t.Fatal(err)
+		}
+	}
+	done := make(chan struct{})
+	go func() {
+		defer close(done)
+		for id := uint32(2); id < 78; id++ {
+			va.AllocSlot(id)
+			if _, err := va.GetBytes(id); err != nil { // creates chunk id
+				t.Logf("GetBytes(%d): %v", id, err)
+				return
+			}
+			// pacing only (so that many cycles overlap the 78 chunk creations): the verdict is the
+			// race detector's, which looks at synchronisation, not at time. It must not be a
+			// channel or an atomic: those would order the compactor's read before the append.
+			time.Sleep(300 * time.Microsecond)
+		}
+	}()
+	for {
+		select {
+		case <-done:
+			return
+		default:
+			ac.RunCycle()
+		}
+	}
+}
+
+func c18RaceProbe(ctx *vkit.Ctx) {
+	if !c18Race {
+		return
+	}
+	ctx.Probe("D-C18-5", func(cs *vkit.Case) string {
+		dir := cs.SubDir("child")
+		logp := dir + "/report"
+		cmd := exec.Command(os.Args[0], "-test.run", "^TestVerifC18RaceChild$", "-test.count=1", "-test.timeout=300s")
+		env := []string{"C18_RACE_CHILD_DIR=" + cs.SubDir("child-arena"), "GORACE=halt_on_error=0 log_path=" + logp + " history_size=2"}
+		for _, kv := range os.Environ() {
+			if !strings.HasPrefix(kv, "GORACE=") && !strings.HasPrefix(kv, "VERIF_") {
+				env = append(env, kv)
+			}
+		}
+		cmd.Env = env
+		cs.Op("child process: RunCycle in a loop while ids 2..77 are stored one per chunk (GetBytes creates 76 chunks)")
+		out, err := cmd.CombinedOutput()
+		ctx.Touch()
+		files, _ := os.ReadDir(dir)
+		var rep []byte
+		for _, f := range files {
+			if strings.HasPrefix(f.Name(), "report") {
+				b, _ := os.ReadFile(dir + "/" + f.Name())
+				rep = append(rep, b...)
+			}
+		}
+		for _, blk := range strings.Split(string(rep), "==================") {
+			if strings.Contains(blk, "DATA RACE") && strings.Contains(blk, "(*AsyncCompactor).RunCycle()") && strings.Contains(blk, "(*VectorArena).addChunk()") {
+				var tops []string
+				for _, l := range strings.Split(blk, "\n") {
+					if strings.Contains(l, "/pkg/storage/mmap/") && !strings.Contains(l, "zz_verif_") {
+						tops = append(tops, strings.TrimSpace(strings.SplitN(strings.TrimSpace(l), " ", 2)[0]))
+					}
+				}
+				return fmt.Sprintf("data race (Go race detector, child process): RunCycle reads the chunk list without the chunk lock while GetBytes -> addChunk appends to it: %s", strings.Join(tops[:min(len(tops), 4)], " | "))
+			}
+		}
+		cs.Op("child: err=%v, %d bytes of race report, %d bytes of output", err, len(rep), len(out))
+		return ""
 	})
 }
